@@ -18,9 +18,10 @@ proved where the callbacks are modelled (C13, C14) and otherwise only searched b
 harness (`harness/c11.go`), which says so in the evidence.
 
 END-TO-END totality (`call_total_<f>`: `Fn.Call` on ANY list of well-formed values returns a value
-or an ordinary error) is proved for 39 functions: `hasindex` (slice d11) and, in slice d11b, `keys`,
+or an ordinary error) is proved for 41 functions: `hasindex` (slice d11) and, in slice d11b, `keys`,
 `values`, `reverse`, `coalescelist`, `compact`, `chunklist`, `index`, `range`, the 16 number / bool
-functions of `D11b.table` and the 14 string functions of `D11b.glueTable` (for every library).
+functions of `D11b.table`, the 14 string functions of `D11b.glueTable` (for every library) and `log`, `pow`
+(for every answer of the math library).
 `merge` is a counterexample (`call_total_merge_counterexample`).  For all other functions the
 clause is searched by the harness only.
 -/
@@ -699,6 +700,15 @@ theorem call_total_string_functions (nfc : String → Bool) :
       (∀ w, (call (e.2.2.2 L).spec ((e.2.2.2 L).tf E) ((e.2.2.2 L).impl E) args).1 ≠ .err (.panicError w)) :=
   fun e he L => D11b.callTotal_glueTable e he L
 
+/-- **`log` and `pow` are total, whatever the math library answers** (number.go `LogFunc`, `PowFunc`; `lib` stands for
+`math.Log(num)/math.Log(base)` resp. `math.Pow`, a float64 that may be NaN: a NaN answer is an ordinary error, an
+argument outside float64 is an ordinary error, `cty.NumberFloatVal` is never handed a NaN) -/
+theorem call_total_log_pow (nfc : String → Bool) :
+    ∀ e ∈ D11b.mathTable, ∀ (lib : Num → Num → StdNum.F64) (E : Stdlib.Env) (args : List Value), (∀ a ∈ args, a.WF nfc = true) →
+      (∀ w, (call (e.2.2 lib).spec ((e.2.2 lib).tf E) ((e.2.2 lib).impl E) args).1 ≠ .panic w) ∧
+      (∀ w, (call (e.2.2 lib).spec ((e.2.2 lib).tf E) ((e.2.2 lib).impl E) args).1 ≠ .err (.panicError w)) :=
+  fun e he lib => D11b.callTotal_mathTable e he lib
+
 theorem string_functions_listed :
     D11b.glueTable.map (·.2.1) = ["UpperFunc", "LowerFunc", "ReverseFunc", "TitleFunc", "TrimSpaceFunc", "ChompFunc",
       "TrimFunc", "TrimPrefixFunc", "TrimSuffixFunc", "ReplaceFunc", "RegexReplaceFunc", "SplitFunc", "IndentFunc",
@@ -756,12 +766,17 @@ theorem d11b_specs_are_table_entries :
       | some s, some sy => D11b.specMatches (e.2.2.2 D11b.idLib).spec s && (sy.staticType == some e.2.2.1) &&
           (sy.refine == "refineNonNull") && (e.2.2.2 D11b.idLib).spec.refine.isSome
       | _, _ => false) = true ∧
+    (D11b.mathTable.all fun e =>
+      match Std.find? e.2.1, Std.syntax? e.2.1 with
+      | some s, some sy => D11b.specMatches (e.2.2 fun _ _ => .nan).spec s && (sy.staticType == some "cty.Number") &&
+          (sy.refine == "refineNonNull") && (e.2.2 fun _ _ => .nan).spec.refine.isSome
+      | _, _ => false) = true ∧
     (D11b.collTable.all fun e =>
       match Stdlib.byName e.1, Std.find? e.2, Std.syntax? e.2 with
       | some f, some s, some sy => D11b.specMatches f.spec s && ((sy.refine == "refineNonNull") == f.spec.refine.isSome) &&
           ((sy.refine == "none") == f.spec.refine.isNone)
       | _, _, _ => false) = true := by
-  refine ⟨?_, ?_, ?_⟩ <;> decide
+  refine ⟨?_, ?_, ?_, ?_⟩ <;> decide
 
 /-- the hypothesis of the totality theorems is met by non-trivial argument lists, and the calls do
 something: `min(3, -2)` answers a negative number; a map under a mark is a well-formed argument of `keys` -/
@@ -807,7 +822,7 @@ theorem call_total_merge_counterexample : ¬ CallTotalMerge := fun h => by
 
 /-- the Go variables of the functions with a `call_total` theorem above -/
 def totalityProved : List String :=
-  D11b.collTable.map (·.2) ++ D11b.table.map (·.2.1) ++ D11b.glueTable.map (·.2.1)
+  D11b.collTable.map (·.2) ++ D11b.table.map (·.2.1) ++ D11b.glueTable.map (·.2.1) ++ D11b.mathTable.map (·.2.1)
 
 /-- the exported functions WITHOUT one: for them "never a panic, never a PanicError" is searched by the
 harness only (`merge` is a proved counterexample) -/
@@ -815,17 +830,17 @@ def totalityOnlySearched : List String :=
   (Generated.stdlibSyntax.map (·.var)).filter fun v => !totalityProved.contains v
 
 set_option maxRecDepth 16384 in
-/-- 39 of the 80 exported functions are proved total end to end, every one of them is an entry of the
-regenerated syntax table, and these 41 are not (regenerated: a function added to cty/function/stdlib shows
+/-- 41 of the 80 exported functions are proved total end to end, every one of them is an entry of the
+regenerated syntax table, and these 39 are not (regenerated: a function added to cty/function/stdlib shows
 up in the second list and fails this theorem until the list is updated) -/
 theorem totality_bookkeeping :
-    totalityProved.length = 39 ∧ totalityProved.all (fun v => (Generated.stdlibSyntax.map (·.var)).contains v) = true ∧
+    totalityProved.length = 41 ∧ totalityProved.all (fun v => (Generated.stdlibSyntax.map (·.var)).contains v) = true ∧
     totalityOnlySearched =
       ["AssertNotNullFunc", "BytesLenFunc", "BytesSliceFunc", "CSVDecodeFunc", "CoalesceFunc", "ConcatFunc", "ContainsFunc",
        "DistinctFunc", "ElementFunc", "EqualFunc", "FlattenFunc", "FormatDateFunc", "FormatFunc", "FormatListFunc",
        "GreaterThanFunc", "GreaterThanOrEqualToFunc", "JSONDecodeFunc", "JSONEncodeFunc", "JoinFunc", "LengthFunc",
-       "LessThanFunc", "LessThanOrEqualToFunc", "LogFunc", "LookupFunc", "MergeFunc", "NotEqualFunc", "ParseIntFunc",
-       "PowFunc", "RegexAllFunc", "RegexFunc", "SetHasElementFunc", "SetIntersectionFunc", "SetProductFunc",
+       "LessThanFunc", "LessThanOrEqualToFunc", "LookupFunc", "MergeFunc", "NotEqualFunc", "ParseIntFunc",
+       "RegexAllFunc", "RegexFunc", "SetHasElementFunc", "SetIntersectionFunc", "SetProductFunc",
        "SetSubtractFunc", "SetSymmetricDifferenceFunc", "SetUnionFunc", "SliceFunc", "SortFunc", "StrlenFunc",
        "TimeAddFunc", "ZipmapFunc"] := by
   refine ⟨by decide, by decide, by decide⟩
